@@ -1,9 +1,54 @@
-"""Prices (money per quantity) under exchange rates - placeholder until Price.tla is bound."""
+"""Prices (money per quantity) under exchange rates (second half of C10): for every pattern of declared
+compound units EUR/kg, EUR/g, USD/kg, USD/g (+ t), every price and rate, both operand orders."""
+import itertools
+import random
+from fractions import Fraction as F
+
+from checks import moneycheck
+from checks.moneycheck import _limbs
+
+
+def cases(ctx):
+    quick = ctx.tier == 'quick'
+    rnd = random.Random(ctx.seed)
+    allu = [('EUR', 'kg'), ('EUR', 'g'), ('USD', 'kg'), ('USD', 'g'), ('EUR', 't'), ('USD', 't'), ('JPY', 'kg')]
+    rates = [dict(uc='EUR', tc='USD', k=0, t6=_limbs(1250000)), dict(uc='USD', tc='EUR', k=0, t6=_limbs(800000)),
+             dict(uc='EUR', tc='USD', k=0, t6=_limbs(1098270)), dict(uc='USD', tc='JPY', k=0, t6=_limbs(150375000)),
+             dict(uc='JPY', tc='EUR', k=2, t6=_limbs(612345))]
+    patterns = []
+    for r in range(1, len(allu) + 1):
+        for sub in itertools.combinations(allu, r):
+            patterns.append(list(sub))
+    if quick:
+        patterns = rnd.sample(patterns, 18) + [[('EUR', 'kg'), ('USD', 'kg')], [('EUR', 'g'), ('USD', 'kg')], [('EUR', 'kg')],
+                                               [('EUR', 'kg'), ('USD', 'kg'), ('EUR', 't'), ('USD', 't')]]
+    cs = []
+    k = 0
+    for pat in patterns:
+        order = list(pat)
+        if k % 2:
+            order.reverse()            # declaration order varies
+        decl = [dict(c=c, m=m) for c, m in order]
+        for (c, m) in pat:
+            for r in rates:
+                for form in ('mul', 'rmul', 'div'):
+                    k += 1
+                    a = [F(2), F(5, 2), F(-7, 3), F(1, 8), F(1000)][k % 5]
+                    cs.append(dict(op='price_rate', form=form, kind='mul' if form != 'div' else 'div', decl=decl, r=r,
+                                   p=dict(c=c, m=m, n=a.numerator, d=a.denominator, a=moneycheck.qj(a), ismoney=True,
+                                          rep='frac' if a.denominator == 3 else 'dec')))
+        # a quantity that involves no money
+        for form in ('mul', 'div'):
+            cs.append(dict(op='price_rate', form=form, kind='mul' if form != 'div' else 'div', decl=decl, r=rates[0],
+                           p=dict(c='EUR', m='kg', n=3, d=1, a=moneycheck.qj(3), ismoney=False)))
+    return cs
 
 
 def run(ctx):
-    ctx.notes.append('price stage not built yet')
+    cs = cases(ctx)
+    # all cases of one declared set run in one process (one world per set)
+    moneycheck.judge(ctx, cs, 'prices', codes=['EUR', 'USD', 'JPY'], group=lambda c: tuple((d['c'], d['m']) for d in c['decl']))
 
 
 def replay(ctx, rp):
-    pass
+    moneycheck.judge(ctx, [dict(rp['replay']['case'])], 'replay', codes=['EUR', 'USD', 'JPY'])
